@@ -23,14 +23,14 @@ func main() {
 	}
 	w.Meta.Rule = "(a) scripts of 3..12 stack operations (Push/Pop/Get/SetTop/Insert/Remove/Replace/GetTop, indices valid, 0, +-(top+1), beyond, +-1000/9999) run by a NewFunction host function at activation depth 0..4 (Lua->Go->Lua->Go chains with 0..5, sometimes 60..105, caller locals; registries 256, 128 fixed and 128 growing), GetTop and every Get(i) logged after each operation, callers' registry cells read back raw and every caller checks its locals; " +
 		"(b) CallByParam/Call/PCall/GPCall x callee (Go, Lua fixed/vararg, non-function, table with __call) x nargs 0..4 x produced 0..4 x NRet -1..5 x Protect x failing callee at depth 0..4; " +
-		"(c) 15 object-level API calls vs the same operator in a Lua chunk on identically built operands (plain values, tables/userdata with random subsets of 12 logging metamethods). " +
+		"(b2) vm.go copyReturnValues driven through the hook on random frames (regv <= start, B = 0/1/>1, any count); (c) 15 object-level API calls vs the same operator in a Lua chunk on identically built operands (plain values, tables/userdata with random subsets of 12 logging metamethods). " +
 		"non-trivial = (a) frame base above 0 and a boundary/out-of-range index or a raise, no Go-nil holes; (b) depth > 0 and NRet != produced or a failing callee; (c) a metamethod was logged; distinct by Gallina term"
 	r := lib.NewRand(a.Seed)
 	if a.Replay != "" {
 		replay(w, a.Replay)
 	} else {
 		corpus(w)
-		na, nc, no := 700, 500, 600
+		na, nc, no := 2000, 1200, 1200
 		if a.Tier == "thorough" {
 			na, nc, no = 16000, 10000, 14000
 		}
@@ -44,6 +44,9 @@ func main() {
 		for i := 0; i < nc; i++ {
 			in := genCall(r.Fork(), i%5)
 			runCall(w, in, "call/"+in.Via+"/"+in.Callee)
+		}
+		for i := 0; i < nc/3; i++ {
+			runCopyRet(w, genCopyRet(r.Fork()), "copyret")
 		}
 		for i := 0; i < no; i++ {
 			in := genObj(r.Fork())
@@ -123,6 +126,10 @@ func replay(w *lib.Writer, path string) {
 		var in ObjIn
 		json.Unmarshal(rp.Input, &in)
 		runObj(w, in, "replay")
+	case "copyret":
+		var in CopyRetIn
+		json.Unmarshal(rp.Input, &in)
+		runCopyRet(w, in, "replay")
 	case "c10-1":
 		runC101(w)
 	default:
